@@ -47,7 +47,10 @@ Base == [camel |-> FALSE, query |-> "Query", mutation |-> "", subscription |-> "
                      Fld(<<"any">>, Named("U"), <<>>, "any", "", ""),
                      Fld(<<"level">>, Named("Level"), <<>>, "level", "r_level", ""),
                      Fld(<<"meta">>, Named("_Meta"), <<>>, "meta", "", ""),
-                     Fld(<<"made", "at">>, Named("Stamp"), <<>>, "made_at", "", "") >>],
+                     \* an argument typed by a plain custom scalar whose default is a STRING THAT READS LIKE A NUMBER in another spelling ("1e3"):
+                     \* printing / introspection must give a literal that reads back as that very string
+                     Fld(<<"made", "at">>, Named("Stamp"), <<ArgD(<<"in", "zone">>, Named("Zone"), "in_zone", [k |-> "str", v |-> "1e3"])>>, "made_at", "", "") >>],
+    [k |-> "scalar", name |-> "Zone", impl |-> "plain"],
     \* a custom scalar realised as an instance of an application SUBCLASS of ScalarType that overrides serialize (impl = "subclass"):
     \* no operation targets it, so its class and behaviour are preserved
     [k |-> "scalar", name |-> "Stamp", impl |-> "subclass"],
